@@ -137,6 +137,65 @@ func errKind(err error) string {
 	}
 }
 
+// safeSend runs the real Send into a fresh buffer. A panic or an error in the code under test is a result
+// (status "panic" / "err"), never a crash of the harness; the bytes that reached the stream are reported as is.
+func safeSend(m rpc.VTMarshaler) (wrote []byte, status string) {
+	var w bytes.Buffer
+	status = "ok"
+	func() {
+		defer func() {
+			if p := recover(); p != nil {
+				status = "panic"
+			}
+		}()
+		if err := rpc.Send(&w, m); err != nil {
+			status = "err"
+		}
+	}()
+	return append([]byte{}, w.Bytes()...), status
+}
+
+// withStr returns a message of type ty whose (single long) string field has n bytes; the other fields random.
+func withStr(rng *hlib.Rng, ty string, n int) msg {
+	m := gen(rng, ty, 0)
+	s := ""
+	if n > 0 {
+		s = str(rng, n)
+	}
+	switch v := m.(type) {
+	case *protocol.Connection:
+		v.Version = s
+	case *protocol.Stream:
+		if v.Target == nil {
+			v.Target = &protocol.Node{Id: rng.U64() % 1000}
+		}
+		v.Target.Address = s
+	case *protocol.TunnelRoute:
+		v.Hostname = s
+	case *protocol.TunnelStatus:
+		v.Error = s
+	case *protocol.Link:
+		v.Hostname = s
+	}
+	return m
+}
+
+// sized builds a message of type ty whose encoded body has exactly `target` bytes when that is reachable
+// (the string field is stretched or shrunk until SizeVT hits the target); otherwise the closest it got.
+func sized(rng *hlib.Rng, ty string, target int) msg {
+	n := max(target-8, 0)
+	var m msg
+	for try := 0; try < 6; try++ {
+		m = withStr(rng, ty, n)
+		d := target - m.SizeVT()
+		if d == 0 {
+			return m
+		}
+		n = max(n+d, 0)
+	}
+	return m
+}
+
 // doRecv runs the real receive on stream and reports (res, passed, rest, decoded message)
 func doRecv(bound int64, stream []byte, chunk int, into msg) (string, string, string) {
 	buf := bytes.NewBuffer(append([]byte{}, stream...))
@@ -183,12 +242,7 @@ var r *hlib.Run
 
 func roundTrip(rng *hlib.Rng, ty string, m msg, bound int64, trail []byte, chunk int) {
 	payload, _ := m.MarshalVT()
-	var w bytes.Buffer
-	serr := rpc.Send(&w, m)
-	wrote := append([]byte{}, w.Bytes()...)
-	if serr != nil {
-		wrote = nil
-	}
+	wrote, sres := safeSend(m)
 	got := fresh(ty)
 	res, passed, rest := doRecv(bound, append(append([]byte{}, wrote...), trail...), chunk, got)
 	same := "na"
@@ -196,15 +250,15 @@ func roundTrip(rng *hlib.Rng, ty string, m msg, bound int64, trail []byte, chunk
 		// churn the buffer pool with another frame of the same size class, then compare: a decoder that
 		// aliased the pooled buffer would now see different bytes
 		other := gen(rng, ty, 0)
-		var w2 bytes.Buffer
-		rpc.Send(&w2, other)
-		rpc.Receive(&w2, fresh(ty))
+		if fr2, st := safeSend(other); st == "ok" {
+			doRecv(-1, fr2, 0, fresh(ty))
+		}
 		gb, _ := got.MarshalVT()
 		same = hlib.B(proto.Equal(m, got) && bytes.Equal(gb, payload))
 	}
 	r.Raw("# case")
 	r.Emit(fmt.Sprintf("rt %s %s %s %s", ty, bstr(bound), hlib.Hex(payload), hlib.Hex(trail)),
-		fmt.Sprintf("wrote=%s res=%s passed=%s rest=%s same=%s", hlib.Hex(wrote), res, passed, rest, same))
+		fmt.Sprintf("send=%s wrote=%s res=%s passed=%s rest=%s same=%s", sres, hlib.Hex(wrote), res, passed, rest, same))
 	key := ""
 	if len(payload) > 0 {
 		key = ty + bstr(bound) + hlib.Hex(payload) + "/" + hlib.Hex(trail)
@@ -215,6 +269,10 @@ func roundTrip(rng *hlib.Rng, ty string, m msg, bound int64, trail []byte, chunk
 	r.Case(key)
 	r.Count("rt:" + ty)
 	r.Count("rt:" + res)
+	r.Count("send:" + sres)
+	if n := len(payload); n >= 56 && n <= 72 {
+		r.Count("payload:56..72")
+	}
 	switch n := len(payload); {
 	case n == 0:
 		r.Count("payload:empty")
@@ -247,7 +305,7 @@ func rawRecv(op string, bound int64, stream []byte, chunk int, lhs string) {
 
 func main() {
 	r = hlib.Start()
-	r.Rule = "rt = (message type, random message incl. nil sub-messages / empty / 100..300-byte / >=64K strings, bound in {none, size-1, size, size+1, 0, call-site bounds 8/16/256/1024/2048, 2^32-1}, random trailing bytes incl. a second frame, reader chunking 1..7 bytes); trunc = every truncation offset of a real frame; recv = malformed streams (header sizes around the available length, 255/256/65535/65536, 0xFFFFFFFF under a bound); non-trivial = non-empty payload / stream"
+	r.Rule = "rt = (real Send with panics/errors reported as send=panic|err; message type, random message incl. nil sub-messages / empty / 100..300-byte / >=64K strings, bound in {none, size-1, size, size+1, 0, call-site bounds 8/16/256/1024/2048, 2^32-1}, random trailing bytes incl. a second frame, reader chunking 1..7 bytes) + a sweep over every encoded body size 0..320 (thorough 0..2200) and +-5 around powers of two up to 64K for every type; trunc = every truncation offset of a real frame; recv = malformed streams (header sizes around the available length, 255/256/65535/65536, 0xFFFFFFFF under a bound); non-trivial = non-empty payload / stream"
 	rng := hlib.NewRng(r.Seed)
 	if r.Replay != "" {
 		for _, t := range r.ReplayLines() {
@@ -306,9 +364,14 @@ func main() {
 		case 0:
 			return nil
 		case 1: // a complete second frame
-			var w bytes.Buffer
-			rpc.Send(&w, gen(rng, hlib.Pick(rng, types), 0))
-			return w.Bytes()
+			ty2 := hlib.Pick(rng, types)
+			m2 := gen(rng, ty2, 0)
+			fr2, st := safeSend(m2)
+			if st != "ok" { // the second message cannot even be written: judge it on a line of its own
+				roundTrip(rng, ty2, m2, -1, nil, 0)
+				return nil
+			}
+			return fr2
 		default:
 			return rng.Bytes(1 + rng.Intn(12))
 		}
@@ -338,9 +401,11 @@ func main() {
 		ty := types[i%len(types)]
 		m := gen(rng, ty, 0)
 		p, _ := m.MarshalVT()
-		var w bytes.Buffer
-		rpc.Send(&w, m)
-		fr := w.Bytes()
+		fr, st := safeSend(m)
+		if st != "ok" { // no frame to truncate: judge the failed Send on a line of its own
+			roundTrip(rng, ty, m, -1, nil, 0)
+			continue
+		}
 		bound := int64(-1)
 		if rng.Chance(40) {
 			bound = int64(len(p)) + int64(rng.Intn(3)) - 1
@@ -383,6 +448,34 @@ func main() {
 			stream = stream[:rng.Intn(4)] // not even a header
 		}
 		rawRecv("recv", bound, stream, chunkFor(), fmt.Sprintf("recv %s %s", bstr(bound), hlib.Hex(stream)))
+	}
+	// body-size sweep: every encoded body size in a window, for every framed type, plus windows around the
+	// sizes where buffers / varints / size classes change (powers of two up to 64K)
+	sweepTo := 320
+	if r.Thorough() {
+		sweepTo = 2200
+	}
+	var targets []int
+	for n := 0; n <= sweepTo; n++ {
+		targets = append(targets, n)
+	}
+	for _, c := range []int{512, 1024, 2048, 4096, 8192, 16384, 32768, 65536} {
+		for d := -5; d <= 5; d++ {
+			if c+d > sweepTo {
+				targets = append(targets, c+d)
+			}
+		}
+	}
+	for _, ty := range types {
+		for _, n := range targets {
+			m := sized(rng, ty, n)
+			if m.SizeVT() == n {
+				r.Count("sweep:exact")
+			} else {
+				r.Count("sweep:nearest")
+			}
+			roundTrip(rng, ty, m, pickBound(m.SizeVT()), trailFor(), chunkFor())
+		}
 	}
 	r.Finish()
 }
